@@ -631,13 +631,57 @@ func repliesExpr(f *fn, e ast.Node) rng {
 	return r
 }
 
+// A path is TERMINAL when the connection is known to be gone or is closed by
+// the server on it: no tagged completion can or need follow. Two syntactic
+// shapes are recognised: a return after `conn.Close()` in the same block, and
+// a return under `if err != nil` where err was last assigned, in the same
+// block, from a read on the connection (conn.Read / reader.Read* / io.ReadFull).
+// Terminal paths are left out of the (min,max) count.
+var terminalDepth = 0
+
+func isConnClose(s ast.Stmt) bool {
+	t := src(s)
+	return strings.Contains(t, "conn.Close()")
+}
+
+func lastErrFromRead(list []ast.Stmt, upto int) bool {
+	for i := upto - 1; i >= 0; i-- {
+		as, ok := list[i].(*ast.AssignStmt)
+		if !ok {
+			continue
+		}
+		for _, l := range as.Lhs {
+			if src(l) == "err" {
+				r := src(as.Rhs[0])
+				return strings.Contains(r, "conn.Read(") || strings.Contains(r, "reader.Read") || strings.Contains(r, "io.ReadFull(")
+			}
+		}
+	}
+	return false
+}
+
 func repliesBlock(f *fn, list []ast.Stmt) flow {
 	cur := flow{fall: rng{true, 0, 0}}
-	for _, s := range list {
+	closed := false
+	for i, s := range list {
 		if !cur.fall.ok {
 			break
 		}
-		fl := repliesStmt(f, s)
+		if isConnClose(s) {
+			if _, isIf := s.(*ast.IfStmt); !isIf {
+				closed = true
+			}
+		}
+		var fl flow
+		if is, ok := s.(*ast.IfStmt); ok && src(is.Cond) == "err != nil" && is.Else == nil && lastErrFromRead(list, i) {
+			terminalDepth++
+			fl = repliesStmt(f, s)
+			terminalDepth--
+		} else if _, isRet := s.(*ast.ReturnStmt); isRet && closed {
+			fl = flow{} // terminal: the server closed the connection on this path
+		} else {
+			fl = repliesStmt(f, s)
+		}
 		cur.ret = cur.ret.union(cur.fall.plus(fl.ret))
 		cur.fall = cur.fall.plus(fl.fall)
 	}
@@ -651,6 +695,9 @@ func repliesStmt(f *fn, s ast.Stmt) flow {
 		r := zero
 		for _, e := range n.Results {
 			r = r.plus(repliesExpr(f, e))
+		}
+		if terminalDepth > 0 {
+			return flow{} // connection gone: see repliesBlock
 		}
 		return flow{ret: r}
 	case *ast.IfStmt:
